@@ -506,6 +506,8 @@ def param_tags(p, prev_has_default=False):
             t.add("default_without_prose")
         if d is None:
             t.add("none_default")
+            if typ is not None and not kw and "Optional" not in type_names(typ):
+                t.add("none_under_nonoptional")
         elif isinstance(d, bool):
             t.add("bool_default")
             if d is False:
